@@ -12,6 +12,7 @@ TRUSTED = [
     "translator rs2v module `layouts`",
     "the message-level theorem is conditional on two field-level hypotheses (printed content accepted again; printing idempotent); they are OBSERVED on the real field parsers for every (type, option, content) the run meets (stream field), not proved, except for the field types whose models are proved under C05/C06/C11",
     "that to_mt_string prints the parsed fields in parse order is checked by the correspondence stream msg (predicted serialisation = library output), not proved",
+    "byte level: the block round trip is restated for the transcribed byte cursor on canonical texts, with the extra premise that printers print clean contents (no line starting with ':' or '-', no trailing line end)",
     "headers and trailer: covered by the library oracle (whole-message re-parse), their codec theorems are under C10",
 ]
 
